@@ -38,6 +38,102 @@ class Site:
         self.key_names = key_names
 
 
+def _inline_locals(fn, expr, depth=0):
+    """expr with the single-assignment locals of fn substituted (bounded depth)"""
+    import copy
+    binds = {}
+    for w in ast.walk(fn):
+        if isinstance(w, ast.Assign) and len(w.targets) == 1 and isinstance(w.targets[0], ast.Name):
+            binds.setdefault(w.targets[0].id, []).append(w.value)
+
+    class Sub(ast.NodeTransformer):
+        def __init__(self, d):
+            self.d = d
+
+        def visit_Name(self, n):
+            if isinstance(n.ctx, ast.Load) and n.id in binds and len(binds[n.id]) == 1 and self.d < 6:
+                return Sub(self.d + 1).visit(copy.deepcopy(binds[n.id][0]))
+            return n
+    return Sub(0).visit(copy.deepcopy(expr))
+
+
+QUAT_KERNEL_DEGREE = {"Exp_SO3_quat": 0, "Exp_SO3_quat_P": -1, "T_SO3_quat": -1, "T_SO3_inv_quat": 1, "T_SO3_quat_P": -2, "T_SO3_inv_quat_P": 0}
+# scaling degree of the normalising quaternion kernels in their argument: exactly what C01.R1 / C01.R2 establish on the same tree (K6)
+
+
+def r7_key_components(ctx, sites, rule="C26.R7"):
+    """A cache key identifies arguments.  Built from the arguments themselves (`t`, `*q`, `xi`) it identifies only equal ones.  A component
+    COMPUTED from an argument identifies distinct arguments, which is transparent only if the memoised value has the same invariance:
+      * a slice `*q[3:]` is fine when the body reads the argument through that slice only;
+      * a normalised quaternion `*(p / norm(p))` is invariant under scaling of p: fine for a value of scaling degree 0 in p (the rotation
+        matrix), wrong for its derivative (degree -1) - the degrees are those C01 verifies for the kernels;
+      * rounding (round, rint, floor, int, astype(int)) is a tolerance key: wrong for any non-constant value."""
+    rep = ctx.rep
+    n = 0
+    for s in sites:
+        if s.key_params is None:
+            continue
+        C = f"{s.rel}:{s.cls.qual}.{s.fn.name}"
+        keyl = getattr(s, "key_lambda", None)
+        if keyl is None:
+            continue
+        calls = [w for w in ast.walk(keyl.body) if isinstance(w, ast.Call) and (dotted(w.func) or "").split(".")[-1] == "hashkey"]
+        comps = calls[0].args if calls else ([keyl.body] if not isinstance(keyl.body, ast.Tuple) else keyl.body.elts)
+        params = set(s.key_params)
+        for c in comps:
+            n += 1
+            core = c.value if isinstance(c, ast.Starred) else c
+            src = norm_src(c)
+            if isinstance(core, ast.Name) or (isinstance(core, ast.Call) and (dotted(core.func) or "").split(".")[-1] in ("tuple", "id", "tobytes", "float", "hash")
+                                               and all(isinstance(a, ast.Name) for a in core.args)) \
+                    or (isinstance(core, ast.Call) and isinstance(core.func, ast.Attribute) and core.func.attr in ("tobytes", "tolist") and isinstance(core.func.value, ast.Name)):
+                rep.ok(rule, C, f"key component `{src}` is the argument itself", trivial=True)
+                continue
+            if isinstance(core, ast.Constant):
+                rep.ok(rule, C, f"key component `{src}` is a constant", trivial=True)
+                continue
+            if isinstance(core, ast.Subscript) and isinstance(core.value, ast.Name):
+                arg, sl = core.value.id, norm_src(core)
+                other = [w for st in s.fn.body for w in ast.walk(st) if isinstance(w, ast.Name) and w.id == arg and isinstance(w.ctx, ast.Load)
+                         and not (isinstance(getattr(w, "_parent", None), ast.Subscript) and norm_src(w._parent) == sl)
+                         and not (isinstance(getattr(w, "_parent", None), ast.Attribute) and w._parent.attr in ("dtype", "shape"))]
+                if other:
+                    rep.bad(rule, C, other[0], f"the key holds only the slice `{sl}` of `{arg}`, but the body also reads `{arg}` outside that slice: two arguments that agree on the slice share "
+                            "an entry", f"{s.rel}:{other[0].lineno}")
+                else:
+                    rep.ok(rule, C, f"key component `{src}`: the body reads `{arg}` through this slice only")
+                continue
+            names = {w.id for w in ast.walk(core) if isinstance(w, ast.Name)} & params
+            fnames = {(dotted(w.func) or "").split(".")[-1] for w in ast.walk(core) if isinstance(w, ast.Call)}
+            rounding = fnames & {"round", "rint", "floor", "ceil", "int", "around", "trunc", "round_"} or any(
+                isinstance(w, ast.Call) and isinstance(w.func, ast.Attribute) and w.func.attr == "astype" for w in ast.walk(core))
+            normalising = isinstance(core, ast.BinOp) and isinstance(core.op, ast.Div) and isinstance(core.right, ast.Call) \
+                and (dotted(core.right.func) or "").split(".")[-1] in ("norm",) and core.right.args and norm_src(core.right.args[0]) == norm_src(core.left)
+            if rounding:
+                rep.bad(rule, C, s.fn.name, f"key component `{src}` rounds its argument: all arguments within the rounding cell share one entry, so the memoised value is served for arguments it was "
+                        "not computed for", f"{s.rel}:{s.fn.lineno}")
+            elif normalising:
+                sl = norm_src(core.left)
+                kern = [(w, QUAT_KERNEL_DEGREE.get((dotted(w.func) or "").split(".")[-1])) for st in s.fn.body for w in ast.walk(st)
+                        if isinstance(w, ast.Call) and w.args and norm_src(w.args[0]) == sl]
+                known = [(w, d) for w, d in kern if d is not None and not any(k.arg == "normalize" and isinstance(k.value, ast.Constant) and k.value.value is False for k in w.keywords)]
+                bad = [(w, d) for w, d in known if d != 0]
+                if bad:
+                    w, d = bad[0]
+                    rep.bad(rule, C, w, f"the key `{src}` is invariant under scaling of `{sl}`, but the memoised value is not: `{norm_src(w)[:50]}` has scaling degree {d:+d} in its argument (C01), so "
+                            f"two states with the same orientation and different quaternion length share an entry and the second is served the first one's value, off by the ratio of the lengths",
+                            f"{s.rel}:{w.lineno}")
+                elif known and len(known) == len(kern):
+                    rep.ok(rule, C, f"key `{src}` is scale invariant and so is the value ({', '.join(sorted({norm_src(w.func) for w, _ in known}))}: degree 0 by C01)")
+                else:
+                    rep.ok(rule, C, f"key `{src}` is scale invariant; invariance of the value not decided (no verdict)", verdict="unknown")
+            elif names:
+                rep.ok(rule, C, f"key component `{src}` is computed from {sorted(names)}; its level sets are not analysed (no verdict)", verdict="unknown")
+            else:
+                rep.ok(rule, C, f"key component `{src}` does not depend on an argument", trivial=True)
+    return n
+
+
 def find_sites(ctx):
     sites = []
     for ci in ctx.model.all_classes():
@@ -51,6 +147,15 @@ def find_sites(ctx):
                     for k in d.keywords:
                         if k.arg == "key" and isinstance(k.value, ast.Lambda):
                             keyl = k.value
+                        elif k.arg == "key" and isinstance(k.value, ast.Name) and k.value.id in ci.methods:
+                            # key given by a named function of the class: read it like a lambda whose body is the returned expression,
+                            # locals inlined (p = q[3:]; return hashkey(*(p / norm(p))))
+                            kf = ci.methods[k.value.id]
+                            rets_ = [r for r in ast.walk(kf) if isinstance(r, ast.Return) and r.value is not None]
+                            if len(rets_) == 1:
+                                keyl = ast.Lambda(args=kf.args, body=_inline_locals(kf, rets_[0].value))
+                                ast.copy_location(keyl, kf)
+                                ast.fix_missing_locations(keyl)
                     shared = (dotted(d.func) or "").split(".")[-1] == "cached"
                     if shared:
                         cache_attr = f"<cache object of the decorator of {fn.name}>"
@@ -62,6 +167,7 @@ def find_sites(ctx):
                         kp = func_params(keyl)
                         kn = {n.id for n in ast.walk(keyl.body) if isinstance(n, ast.Name)}
                     site = Site(ci.rel, ci, fn, cache_attr, kp, kn)
+                    site.key_lambda = keyl
                     if not shared:
                         # a cache object created in the CLASS BODY (of this class or a base) and never per instance is one object for all instances
                         per_instance = any(cache_attr in c_.stores for c_ in [ci] + [b for b in ctx.model.all_classes() if b.qual in getattr(ci, "base_names", [])]) \
@@ -139,6 +245,8 @@ def run(ctx):
     rep.rule("C26.R6", "memoised results are neither persistent buffers of the instance nor modified in place by their consumers (K18, whole package)", 20)
     from .. import cachepurity
     cachepurity.report(ctx, "C26.R6", ("cardillo/",))
+    rep.rule("C26.R7", "key components are the arguments themselves, a slice the body reads exclusively, or a transformation under which the memoised value is provably invariant (normalised quaternion: value of scaling degree 0); no rounding keys", 30)
+    r7_key_components(ctx, find_sites(ctx))
     rep.rule("C26.R1", "key completeness (parameter liveness vs key; rods: N,N_xi = basis(xi) at every call site)", 40)
     rep.rule("C26.R2", "no stale state: writers of state read under a cache clear it", 16)
     rep.rule("C26.R3", "no in-place mutation of memoised results by callers", 80)
@@ -497,4 +605,13 @@ MUTANTS += [
          edits=[("cardillo/rods/_base.py", "        self._eval_cache = LRUCache(maxsize=nquadrature + 10)\n        self._deval_cache = LRUCache(maxsize=nquadrature + 10)\n", ""),
                 ("cardillo/rods/_base.py", "class CosseratRod_PetrovGalerkin(RodExportBase, ABC):\n", "class CosseratRod_PetrovGalerkin(RodExportBase, ABC):\n    _eval_cache = LRUCache(maxsize=64)\n    _deval_cache = LRUCache(maxsize=64)\n\n")],
          expect="C26.R1"),
+]
+
+MUTANTS += [
+    dict(id="c26-r7-seed", canary=True, what="[seeded by sub-agent] RigidBody.A_IB and A_IB_q keyed by the normalised quaternion only (A_IB_q has scaling degree -1)", file='cardillo/discrete/rigid_body.py',
+         edits=[('cardillo/discrete/rigid_body.py', '    @cachedmethod(\n        lambda self: self.A_IB_cache,\n        key=lambda self, t, q, xi=None: hashkey(t, *q),\n    )\n    def A_IB(self, t, q, xi=None):', '    def _orientation_key(self, t, q, xi=None):\n        p = q[3:]\n        return hashkey(*(p / norm(p)))\n\n    @cachedmethod(lambda self: self.A_IB_cache, key=_orientation_key)\n    def A_IB(self, t, q, xi=None):'), ('cardillo/discrete/rigid_body.py', '    @cachedmethod(\n        lambda self: self.A_IB_q_cache,\n        key=lambda self, t, q, xi=None: hashkey(t, *q),\n    )\n    def A_IB_q(self, t, q, xi=None):', '    @cachedmethod(lambda self: self.A_IB_q_cache, key=_orientation_key)\n    def A_IB_q(self, t, q, xi=None):')], expect="C26.R7"),
+    dict(id="c26-r7-round", what="RigidBody.A_IB_q keyed by the rounded coordinates (tolerance key)", file='cardillo/discrete/rigid_body.py', old='    @cachedmethod(\n        lambda self: self.A_IB_q_cache,\n        key=lambda self, t, q, xi=None: hashkey(t, *q),\n    )\n    def A_IB_q(self, t, q, xi=None):', new='    @cachedmethod(\n        lambda self: self.A_IB_q_cache,\n        key=lambda self, t, q, xi=None: hashkey(t, *np.round(q, 12)),\n    )\n    def A_IB_q(self, t, q, xi=None):', expect="C26.R7"),
+]
+NEUTRAL += [
+    dict(id="c26-n-r7", canary=True, what="RigidBody.A_IB alone keyed by the normalised quaternion (the rotation matrix has scaling degree 0)", file='cardillo/discrete/rigid_body.py', old='    @cachedmethod(\n        lambda self: self.A_IB_cache,\n        key=lambda self, t, q, xi=None: hashkey(t, *q),\n    )\n    def A_IB(self, t, q, xi=None):', new='    def _orientation_key(self, t, q, xi=None):\n        p = q[3:]\n        return hashkey(*(p / norm(p)))\n\n    @cachedmethod(lambda self: self.A_IB_cache, key=_orientation_key)\n    def A_IB(self, t, q, xi=None):'),
 ]
